@@ -85,10 +85,12 @@ Proof. exact json_attrs_fixed_point. Qed.
 Print Assumptions C13_json_attrs.
 
 (* footprint: every attribute a post-fit answer method reads through `self` is restored by deserialisation:
-   from the tree, through the constructor call on the stored parameters, or (nothing on this tree) allow-listed *)
+   from the tree, through the constructor call on the stored parameters, by the Preprocessor's own loop over its
+   transformer slots, or (nothing on this tree) allow-listed *)
 Theorem C13_every_read_field_is_restored : forall fp, In fp footprints ->
   forall m f, In (m, f) (fp_reads fp) ->
-  In f (fp_serialized fp) \/ In f (fp_ctor fp) \/ In f (fp_init_only fp) \/ In f (allowed_runtime (fp_class fp)).
+  In f (fp_serialized fp) \/ In f (fp_ctor fp) \/ In f (fp_init_only fp) \/ In f (fp_custom_restored fp) \/
+  In f (allowed_runtime (fp_class fp)).
 Proof. exact every_read_field_is_restored. Qed.
 Print Assumptions C13_every_read_field_is_restored.
 
